@@ -90,15 +90,16 @@ PROPS.update({
     "C19": dict(kind="leaf", module="e2e-checksum",
                 files={"leaf/e2e-checksum/codec_verif_test.go": "zz_verif_codec_test.go"},
                 tests=[(".", "TestC19")],
-                quick=dict(checks=6000, shards=4, timeout=900),
+                quick=dict(checks=3000, shards=4, timeout=900),
                 thorough=dict(checks=150000, shards=16, timeout=3300, fuzz=[(".", "FuzzC19", 180)]),
                 rule="descriptor-driven message filler over 20 root message types already linked into the module (structpb Value/Struct/ListValue, descriptorpb File/Descriptor/FieldOptions, "
                      "datastore Entity/Value/Key/CommitRequest/RunQueryRequest/LookupResponse/Mutation, Any, wrappers, Api, Type): field presence, scalar extremes, unknown enum numbers, nested depth <=5, "
-                     "repeated 0-8, maps, oneofs, bytes up to 70000, well-formed unknown fields (incl. an own field 2047) appended. Oracle: output starts FD 7F; bytes 2..5 little-endian = CRC32C of the rest "
+                     "repeated 0-8 (rarely 130/300), maps, oneofs, bytes up to 70000 (rarely 2 MiB), rarely depth 9/14, well-formed unknown fields (incl. an own field 2047) appended; a case is a HISTORY of 1-6 Marshal calls on one codec "
+                     "instance over up to 3 live message objects: fresh content, the unchanged object again, or the same object edited in place (mostly to an encoding of the same size). Oracle after every call: output starts FD 7F; bytes 2..5 little-endian = CRC32C of the rest "
                      "computed by a bitwise table-free reference; an independent top-level wire walk sees exactly one extra leading field followed by the payload's fields; payload length = proto.Size; "
                      "for messages without multi-entry maps the payload equals the deterministic standard encoding byte for byte; decoding the payload gives the original; decoding the whole output with the "
                      "codec and with a plain parser gives the original up to exactly one more unknown field 2047; underlying codec errors and a non-proto value pass their error through. "
-                     "Non-trivial = message with a non-empty encoding; distinct = FNV-1a of (type, standard encoding). Thorough adds native fuzzing (bytes -> Unmarshal into a drawn type -> same oracle).",
+                     "outputs handed out by earlier calls stay unchanged. Non-trivial = history with a non-empty encoding; distinct = FNV-1a of the history (types, standard encodings). Thorough adds native fuzzing (bytes -> Unmarshal into a drawn type -> same oracle).",
                 assume=["in-package test compiled in a scratch copy of e2e-checksum (removed after the run); default go toolchain",
                         "'equal to the original' when decoding the whole output means proto.Equal after removing the one unknown field 2047 the codec adds", "a search, not a proof"]),
     "C18": dict(kind="leaf", module="spanner_prober",
